@@ -27,7 +27,12 @@ Definition ex_prog (ci ct ca cb ce bl inner2 : nat) (nl1 : option (nat * nat)) (
                           (LT (LApp (LA 15) (ACons inner2 (LLam [16] (body (LB (cb + 30) (LExpr (LT (LApp (LA 16) ANil))) LNil))
                                                                  (if inl then None else Some (1, 0))) ANil))))) LNil))))))) LNil)
                 (IElse 0 ce (BInline (LB (ce + 5) (LExpr (LT (LApp (LA 17) ANil))) LNil)))))))
-        (LCons 0 (ci + (if inl then 0 else 1)) (LExpr (LT (LApp (LA 18) ANil))) LNil)))))].
+        (LCons 0 ci (LExpr (LT (LIf ((19, []), []) bl (LB ct (LExpr (LT (LIf1 ((20, []), []) ((21, [22]), []) None))) LNil) IEnd)))
+        (LCons bl ci (LLet 23 None (LT (LSMatch ((24, []), []) 0
+             (SCons (if inl then ci else 0) 25 (body (LB cb (LExpr (LT (LApp (LS 26) ANil))) LNil)) bl
+             (SCons (ci + 1) 27 (BInline (LB (cb + 9) (LExpr (LT (LIf1 ((28, []), []) ((29, []), []) (Some ((30, []), [(2, (31, []))]))))) LNil)) 0
+             (SLast ci (Some 32) (BNext 0 (LB cb (LExpr (LT (LApp (LA 33) ANil))) LNil))))))))
+        (LCons 0 (ci + (if inl then 0 else 1)) (LExpr (LT (LApp (LA 18) ANil))) LNil)))))))].
 
 Definition ex_a := ex_prog 2 4 4 6 2 0 0 None true.
 Definition ex_b := ex_prog 7 20 23 31 8 3 55 (Some (2, 1)) false.
